@@ -1,0 +1,8 @@
+//go:build verif
+
+// Contracts for package syntax, checked by /verif (govc). Comment-only file.
+package syntax
+
+//@ lemma lang_syntaxServiceValue(x string)
+//@   property C11 C02
+//@   ensures [equiv] matches(x, regexServiceValue) <==> inLang(x, serviceValueL())
